@@ -17,9 +17,9 @@ MANIFEST = dict(
          "lists, repeated HTLC entries included, and that content is within the bounds), filter theorems (only "
          "an explicit Warn rule downgrades).  The model is run against the real validators (through the Validator "
          "trait) and against Channel::sign_counterparty_commitment_tx_phase2 on every run with boundary-crossed "
-         "inputs, and an independent u128 reference predicate monitors every acceptance.  C05_feerate_estimate_is_source / C05_commitment_weight_is_source: the fee helpers ARE the source's - estimate_feerate_per_kw and expected_commitment_tx_weight (util/transaction_utils.rs) are translated on every run by tools/gen_rustfn.py (Gen/TxUtilGen.v) and proved equal to the model's definitions for every u64 fee and non-zero weight, in both build profiles.",
+         "inputs, and an independent u128 reference predicate monitors every acceptance.  C05_feerate_estimate_is_source / C05_commitment_weight_is_source: the fee helpers ARE the source's - estimate_feerate_per_kw and expected_commitment_tx_weight (util/transaction_utils.rs) are translated on every run by tools/gen_rustfn.py (Gen/TxUtilGen.v) and proved equal to the model's definitions for every u64 fee and non-zero weight, in both build profiles.  C05_commitment_rules_are_source / C05_expiry_rule_is_source / C05_fee_rule_is_source: the commitment rules ARE the source's - SimpleValidator::validate_commitment_tx (whole body), ::validate_expiry, ::validate_fee with ChannelSetup::is_anchors / ::is_zero_fee_htlc and CommitmentInfo2::value_to_parties are translated statement by statement on every run (Gen/CommitmentPolicyGen.v, records generated from the struct declarations, constants read from their files) and proved equal to the model's validate_commitment / validate_expiry / validate_fee on the abstraction of every source-level value, for every policy filter, both build profiles, refusal tags and panics included; C05_source_accept_implies_bounds carries the bounds over to what the translated function accepts.",
     design="§4 C05",
-    note=lib.TB + "Side conditions stated in the theorem: max_feerate_per_kw < u32::MAX (u32::MAX means no maximum "
+    note=lib.TB + "Additionally trusted: tools/gen_rustfn.py and the meaning Base/Rust.v gives to the Rust constructs it reads; side conditions of the source theorems (boolean commit_fits): channel_value_sat fits u64, feerate_per_kw fits u32, (number of HTLCs)*172+1124 fits usize; LDK's htlc_timeout/success_tx_weight and the policy filter are parameters of the translation.  Side conditions stated in the theorem: max_feerate_per_kw < u32::MAX (u32::MAX means no maximum "
          "after the repair saturates), and in release builds current_height + delay <= u32::MAX (debug builds panic "
          "instead of wrapping).  Modelled, not verified: LDK HTLC weights (663/703), CommitmentInfo2 ordering, the "
          "wallet's can_spend / allowlist answers, payment and balance checks around the validator.",
@@ -30,6 +30,11 @@ MANIFEST = dict(
 PINNED = ["C05_accept_implies_bounds", "C05_accept_per_tag", "C05_setup", "C05_channel_value", "C05_onchain",
           "C05_usable_only_after_setup", "C05_signed_commitment_bounds", "C05_dedup_validation_refuted", "C05_filter_default", "C05_filter_only_explicit", "C05_nonvacuous",
           "C05_fee_truncation_refuted"]
+
+# the tie to the source: Gen/TxUtilGen.v and Gen/CommitmentPolicyGen.v are regenerated from /repo right before the build
+SOURCE_PINNED = ["C05_feerate_estimate_is_source", "C05_feerate_estimate_zero_weight_panics",
+                 "C05_commitment_weight_is_source", "C05_expiry_rule_is_source", "C05_fee_rule_is_source",
+                 "C05_commitment_rules_are_source", "C05_source_accept_implies_bounds"]
 
 IMPORTS = ["Model.CommitmentPolicyCheck"]
 
@@ -46,15 +51,25 @@ def run(res):
 
     def regen():
         report.update(gen_rustfn.generate_txutil(lib.REPO))
+        stage["at"] = "commitment"
+        # Gen/CommitmentPolicyGen.v: validate_expiry, validate_fee, validate_commitment_tx and the helpers they call
+        report["commitment_policy"] = gen_rustfn.generate_commitment_policy(lib.REPO)
+    stage = {"at": "txutil"}
     try:
-        lib.proof_stage(res, "C05.v", "Props.C05", PINNED + ["C05_feerate_estimate_is_source",
-                                                            "C05_feerate_estimate_zero_weight_panics",
-                                                            "C05_commitment_weight_is_source"], pre=regen)
+        lib.proof_stage(res, "C05.v", "Props.C05", PINNED + SOURCE_PINNED, pre=regen)
     except gen_rustfn.GenError as e:
-        res.violation("the translator cannot read estimate_feerate_per_kw / expected_commitment_tx_weight (a construct "
-                      "outside its fragment): %s" % e,
-                      {"translator": "tools/gen_rustfn.py", "source": "vls-core/src/util/transaction_utils.rs",
-                       "error": str(e), "theorem": "C05_feerate_estimate_is_source"}, has_input=False)
+        if stage["at"] == "txutil":
+            res.violation("the translator cannot read estimate_feerate_per_kw / expected_commitment_tx_weight (a construct "
+                          "outside its fragment): %s" % e,
+                          {"translator": "tools/gen_rustfn.py", "source": "vls-core/src/util/transaction_utils.rs",
+                           "error": str(e), "theorem": "C05_feerate_estimate_is_source"}, has_input=False)
+        else:
+            res.violation("the translator cannot read validate_commitment_tx / validate_expiry / validate_fee or a helper, "
+                          "declaration or constant they use (a construct outside its fragment): %s" % e,
+                          {"translator": "tools/gen_rustfn.py",
+                           "source": "vls-core/src/policy/simple_validator.rs (+ channel.rs, tx/tx.rs, policy/validator.rs, "
+                                     "policy/mod.rs, policy/error.rs, util/transaction_utils.rs)",
+                           "error": str(e), "theorem": "C05_commitment_rules_are_source"}, has_input=False)
     res.coverage["translated_from_source"] = report
     cov = res.coverage
     profiles = ["debug"] if quick else ["debug", "release"]
